@@ -5,6 +5,7 @@ package c08
 
 import (
 	"fmt"
+	"math"
 	"regexp"
 	"strconv"
 	"testing"
@@ -99,6 +100,9 @@ func TestPropSetStateModel(t *testing.T) {
 					id = m.lastID + int64(rapid.IntRange(1, 3).Draw(t, "newer"))
 				}
 				n := int32(rapid.IntRange(0, 14).Draw(t, "count"))
+				if rapid.IntRange(0, 19).Draw(t, "extreme") == 0 {
+					n = rapid.SampledFrom([]int32{math.MaxInt32, math.MaxInt32 - 1, 1 << 30, 1<<31 - 10}).Draw(t, "extremeCount")
+				}
 				before := sum()
 				accept, latest, err := fc.SetState(name, id, n)
 				trace += fmt.Sprintf("set(%s,id=%d,n=%d)->(%v,%d,%v);", name, id, n, accept, latest, err)
